@@ -84,7 +84,7 @@ def run(rep, prop="C05"):
     nmfu = common.load_nmfu()
     n = 0
     program = Program(nmfu, common.repo_source())
-    for fn, tag in ((prove, FNQ), (prove_dfs, "DFA.dfs")):
+    for fn, tag in ((prove, FNQ), (prove_dfs, "DFA.dfs"), (prove_override_merge, "ConditionalAction.get_target_override_mode")):
         try:
             n += fn(rep, nmfu, program, prop)
         except (Unsupported, NeedFork, KeyError, AttributeError) as e:
@@ -190,4 +190,120 @@ def prove_dfs(rep, nmfu, program, prop="C05"):
         else:
             what, detail = a["bad"]
             rep.failed_ob(Finding(prop, oid, f"{fnq}|{clause}", f"{fnq}: {what} [{detail}]", replay={"clause": clause, **{k: str(v) for k, v in detail.items()}}, replayed=False))
+    return n
+
+
+# ------------------------------------------------------------------------------------------------ what DFA.dfs is told about a conditional
+
+def _loop_carried(loop):
+    """names a for-loop body carries from one iteration to the next (read before the iteration has assigned them), and whether the body
+    stores anywhere else (attributes, subscripts): the structural premise of the fold induction below"""
+    import ast
+    defined, carried, other_stores = {loop.target.id} if isinstance(loop.target, ast.Name) else set(), set(), False
+    stored = {n.id for st in loop.body for n in ast.walk(st) if isinstance(n, ast.Name) and isinstance(n.ctx, ast.Store)}
+    for st in loop.body:
+        for n in ast.walk(st):
+            if isinstance(n, (ast.Attribute, ast.Subscript)) and isinstance(n.ctx, ast.Store):
+                other_stores = True
+        loads = {n.id for n in ast.walk(st) if isinstance(n, ast.Name) and isinstance(n.ctx, ast.Load)}
+        if isinstance(st, ast.AugAssign) and isinstance(st.target, ast.Name):
+            loads.add(st.target.id)
+        carried |= (loads & stored) - defined
+        if isinstance(st, ast.Assign) and len(st.targets) == 1 and isinstance(st.targets[0], ast.Name):
+            defined.add(st.targets[0].id)
+    return carried, other_stores
+
+
+def prove_override_merge(rep, nmfu, program, prop="C05"):
+    """ConditionalAction.get_target_override_mode / get_target_override_targets: what the reachability pass (DFA.dfs, proved above against
+    the modes and targets *reported* by actions) is told about an action-only conditional.  Required of the merged mode, for ALL lists of
+    sub-actions:   NONE iff every sub-action reports NONE;  otherwise a mode for which dfs follows the override targets (MAY_GOTO_TARGET)
+    iff some sub-action may or always jumps to a target;  otherwise MAY_GOTO_UNDEFINED;  never an ALWAYS_* mode (no branch need be taken).
+    Induction on the list: the function is a fold whose loop carries one variable (checked on the AST); the real function run on
+    [], on [a] and on [a_m, a_x] for every reachable merged value m and every mode x gives base, injection and step.
+    The merged targets contain the targets of every sub-action (representative shapes: one and two conditions, shared targets)."""
+    import ast, itertools
+    fnq = "ConditionalAction.get_target_override_mode"
+    rep.fn(fnq, "ConditionalAction.get_target_override_targets")
+    M = nmfu.ActionOverrideMode
+    T_CLASS = (M.MAY_GOTO_TARGET, M.ALWAYS_GOTO_OTHER)
+
+    def spec(ms):
+        if all(m is M.NONE for m in ms):
+            return M.NONE
+        return M.MAY_GOTO_TARGET if any(m in T_CLASS for m in ms) else M.MAY_GOTO_UNDEFINED
+    n = 0
+    cl = Clauses(rep, prop, fnq, "fold", [], None)
+    node = program.proto.funcs[fnq]
+    loops = [x for x in ast.walk(node) if isinstance(x, (ast.For, ast.While))]
+    comps = [x for x in ast.walk(node) if isinstance(x, (ast.ListComp, ast.SetComp, ast.GeneratorExp, ast.DictComp))]
+    if len(loops) == 1 and isinstance(loops[0], ast.For) and not comps:
+        carried, other = _loop_carried(loops[0])
+        cl.structural("loop-carries-one-variable", len(carried) <= 1 and not other, f"the loop carries {sorted(carried)} / stores elsewhere: {other}; the fold induction needs a single carried variable")
+        inductive = len(carried) <= 1 and not other
+    else:
+        inductive = False
+        rep.unavailable(f"{prop}/pyvc/{fnq}/fold-shape", "not a single for-loop: only lists of up to three sub-actions are covered (exhaustively)")
+    n += cl.n
+
+    def run_on(shape):
+        """shape: list of lists of modes, one inner list per condition"""
+        def body(eng):
+            d = {}
+            for ci, ms in enumerate(shape):
+                d[SObj(nmfu.IntegerCondition, {"name": f"c{ci}"})] = HList([SObj(nmfu.CallHook, {"name": f"a{ci}_{i}", "__mode": m}) for i, m in enumerate(ms)])
+            me = SObj(nmfu.ConditionalAction, {"sub_actions": HDict(d)})
+            v, _ = call_function(eng, fnq, [], self_obj=me)
+            return v, {}
+        cs = dict(DEBUG_CONTRACTS)
+        cs["Action.get_target_override_mode"] = lambda eng, a, kw: a[0].fields["__mode"]
+        rs = list(explore(program, body, contracts=cs))
+        if len(rs) != 1 or rs[0].exits or rs[0].dead is not False:
+            return None
+        return rs[0].value
+    reach = [M.NONE, M.MAY_GOTO_TARGET, M.MAY_GOTO_UNDEFINED]
+    shapes = [("base", [[]], [])]
+    for x in M:
+        shapes.append((f"single.{x.name}", [[x]], [x]))
+    for m in reach:
+        for x in M:
+            shapes.append((f"step.{m.name}.{x.name}", [[m, x]], [m, x]))
+            shapes.append((f"step-across-conditions.{m.name}.{x.name}", [[m], [x]], [m, x]))
+    if not inductive:
+        for ms in itertools.product(list(M), repeat=3):
+            shapes.append(("three." + ".".join(m.name for m in ms), [list(ms)], list(ms)))
+    for tag, shape, flat in shapes:
+        c2 = Clauses(rep, prop, fnq, tag, [], None)
+        got = run_on(shape)
+        want = spec(flat)
+        c2.structural("merged-mode", got is want, f"sub-actions reporting {[m.name for m in flat]}: merged mode {getattr(got, 'name', got)}, but the reachability pass needs {want.name}"
+                      + (" (it follows override targets only for MAY_GOTO_TARGET / ALWAYS_GOTO_OTHER)" if want is M.MAY_GOTO_TARGET else ""))
+        n += c2.n
+    # targets
+    fnt = "ConditionalAction.get_target_override_targets"
+    O = [SObj(nmfu.DFState, {"transitions": HList([])}) for _ in range(3)]
+    for tag, shape in (("one-condition", [[[0, 1], [1, 2]]]), ("two-conditions", [[[0]], [[1, 2], []]]), ("empty", [[]])):
+        def body(eng, shape=shape):
+            d = {}
+            for ci, acts in enumerate(shape):
+                d[SObj(nmfu.IntegerCondition, {"name": f"c{ci}"})] = HList([SObj(nmfu.CallHook, {"name": f"a{ci}_{i}", "__targets": HList([O[k] for k in ts])}) for i, ts in enumerate(acts)])
+            me = SObj(nmfu.ConditionalAction, {"sub_actions": HDict(d)})
+            v, _ = call_function(eng, fnt, [], self_obj=me)
+            return eng.iterate(v), {}
+        cs = dict(DEBUG_CONTRACTS)
+        cs["Action.get_target_override_targets"] = lambda eng, a, kw: a[0].fields["__targets"]
+        old_ms = getattr(Engine, "mutable_sets", False)
+        Engine.mutable_sets = True
+        try:
+            rs = list(explore(program, body, contracts=cs))
+        finally:
+            Engine.mutable_sets = old_ms
+        c3 = Clauses(rep, prop, fnt, tag, [], None)
+        if len(rs) != 1 or rs[0].exits or rs[0].dead is not False:
+            c3.fail("no-exception", "raises / forks")
+        else:
+            got = set(id(x) for x in rs[0].value)
+            need = set(id(O[k]) for acts in shape for ts in acts for k in ts)
+            c3.structural("contains-every-sub-action-target", need <= got and got <= set(id(x) for x in O), f"merged targets miss {len(need - got)} target(s) of the sub-actions")
+        n += c3.n
     return n
